@@ -15,12 +15,19 @@ CONFIG = dict(
                "code along calls, spawns and stored-closure dispatch (so every such path passes through a queue), invocation_points_reviewed that the graph "
                "contains no unreviewed invocation point / literal use, invocations_on_loop and posted_closures_on_loop that every invocation point is wired to "
                "RunService.loop, timer_roots_enqueue that the timer goroutine reaches a channel send, waterfall_covered that the step / final invocation points of a "
-               "waterfall chain are loop sites and that the completion callback handed to the steps (callable from any goroutine) is one of the forbidden goroutine roots. Two clients of the loop are modelled and proved by induction: a utils/waterfall.Sche "
+               "waterfall chain are loop sites and that the completion callback handed to the steps (callable from any goroutine) is one of the forbidden goroutine roots. Three clients of the loop are modelled and proved by induction: the completion callbacks of a service's requests "
+               "(request_completion_on_loop: for every list of requests, whatever becomes of each - answered by any goroutine, answered by the requester itself, turned into a dead "
+               "letter on any goroutine, never answered - and every capacity >= 1 the induced schedule is a schedule of the loop model, serial, every callback starts on the consumer; "
+               "the model driver derives the `relay` observation from this schedule; witness dead_letter_inline_completion_breaks_serial), a utils/waterfall.Sche "
                "chain (waterfall_chain_on_loop: for every number of steps, every list of completion reports by any threads with any error flags and every capacity >= 1 "
                "the induced schedule is a schedule of the loop model, its trace is serial and every step and the final callback starts on the consumer; witness "
                "waterfall_inline_final_breaks_serial) and the timer objects of timer.Mgr (timer_callbacks_on_owner: for every sequence of arming, expiry, cancellation - "
                "also after the expiry - and queue processing on any number of managers, a manager's loop runs only callbacks armed on that manager; rests on NewTimerObj "
-               "allocating fresh objects, witness timer_obj_reuse_breaks_ownership). Which loop drains which scheduler is modelled too "
+               "allocating fresh objects, witness timer_obj_reuse_breaks_ownership; a manager that is stopped at any point of the history - timer.Mgr.Stop, the first "
+               "thing StandardRunService.Stop does without waiting for the loop - is modelled too: the AfterFunc closure of a stopped manager's object touches neither queue "
+               "nor callback, timer_stop_callbacks_on_owner carries the ownership theorem over, stopped_mgr_runs_only_backlog / stopped_mgr_runs_nothing prove by induction "
+               "that after the stop the loop runs at most what already waited in its queue and nothing that becomes due later, witness "
+               "stopped_mgr_inline_expiry_breaks_serial for the design that runs a due one-shot timer of a stopped manager on the timer goroutine). Which loop drains which scheduler is modelled too "
                "(sche.Mgr.GetSche by name, create-if-missing): one_loop_per_scheduler proves by induction, for any number of run services and any registry state, "
                "that services created under pairwise distinct unregistered names drain pairwise distinct fresh schedulers (single consumer per queue, the premise "
                "of the loop model); same_name_shares_scheduler is the witness that the hypothesis cannot be dropped (reproduced on the real code: two services "
@@ -30,8 +37,8 @@ CONFIG = dict(
                "handler call are trusted links of the graph; the reviewed tables of lean/Cell2v/Spec/C04.lean (which keys are service code, which exported "
                "functions are loop-side API to be called only from the service's goroutine) are a hand-written description checked for completeness, not for truth; "
                "code outside the nine analysed packages (node/client/impls, waterfall.Simple / ExecAndWait, proto.actor's supervision / restart path) is covered only by the dynamic half; "
-               "the waterfall-chain, timer-object and registry models of Model/Loop.lean are hand-written and tied to the code only through the dynamic half "
-               "(ops wfall / tcancel / anon, per-case unique run-service names, the empty-name services U and V).",
+               "the request-completion, waterfall-chain, timer-object / stopped-manager and registry models of Model/Loop.lean are hand-written and tied to the code only through the dynamic half "
+               "(ops relay / selfreq / wfall / tcancel / stop tmr=n / anon, per-case unique run-service names, the empty-name services U and V).",
     gen=["cd harness && go1.26 run ./extract/c04 -out ../lean/Cell2v/Gen/C04Graph.lean"],
     lean_targets=["Cell2v.Props.C04", "modeld_c04"],
     driver="modeld_c04",
@@ -40,7 +47,10 @@ CONFIG = dict(
     required_theorems=["handlers_serial", "handlers_only_on_consumer", "run_only_enqueued", "graph_checks", "entry_only_via_loop",
                        "invocation_points_reviewed", "invocations_on_loop", "posted_closures_on_loop", "timer_roots_enqueue",
                        "waterfall_covered", "waterfall_sched_enabled", "waterfall_chain_on_loop", "waterfall_inline_final_breaks_serial",
-                       "timer_good_run", "timer_callbacks_on_owner", "timer_obj_reuse_breaks_ownership", "one_loop_per_scheduler", "distinct_names_distinct_schedulers", "same_name_shares_scheduler"],
+                       "timer_good_run", "timer_callbacks_on_owner", "timer_obj_reuse_breaks_ownership",
+                       "timer_stop_good_run", "timer_stop_callbacks_on_owner", "timer_stop_run", "stopped_mgr_runs_only_backlog",
+                       "stopped_mgr_runs_nothing", "stopped_mgr_inline_expiry_breaks_serial",
+                       "request_sched_enabled", "request_completion_on_loop", "dead_letter_inline_completion_breaks_serial", "one_loop_per_scheduler", "distinct_names_distinct_schedulers", "same_name_shares_scheduler"],
     harness_pkg="./c04",
     mode="diff",
     reset_prefix="reset",
@@ -59,7 +69,9 @@ CONFIG = dict(
          "timers armed with zero / negative delay from the service and from a foreign goroutine, and notifies to up to 12 sibling actors sharing A's dispatcher while A's goroutine is kept busy (more runs pending than the 9-slot channel holds); handlers dwell inside the service by virtual sleep / yield / spin. A third of the cases switch both event centres to direct mode (`evmode chan=0`: SetLocalUseChan(false), "
          "local events then published by the owner only, global events by owner or foreign goroutines and still required on the owner's goroutine); a third end with `stop`: client "
          "connections open, A inside a long piece with up to 200 closures queued, its run service stopped by a foreign goroutine or by the piece itself, then the connections close "
-         "(how many queued closures still run is not compared; nothing of A may run off its goroutine). Further ops: `anon` (posted closures and client sessions on two "
+         "(how many queued closures still run is not compared; nothing of A may run off its goroutine); half of these stops carry `tmr=n`: the stopping piece first arms "
+         "1-60 one-shot timers and a repeating one that become due on the STOPPED manager, half of them while the piece is still in progress (the model's TimerStop run "
+         "says none of them runs). Further ops: `anon` (posted closures and client sessions on two "
          "services created with the EMPTY run-service name, one optionally held busy), `flood` (up to 1500 local events — more than the 999-slot queue — published by a foreign goroutine "
          "while the owner is stalled, or up to 900 by the owner itself), `selfreq` (requests to the service's own pid answered synchronously or from a helper goroutine), "
          "`wfall` (1-40 utils/waterfall.Sche chains of 1-4 steps on A's scheduler, every step completed inline or from a helper goroutine, optionally one step "
@@ -67,7 +79,9 @@ CONFIG = dict(
          "virtual millisecond, optionally kicked by the service afterwards: kick handler `kick`), `tcancel` (A arms 1-50 one-shot timers, stays busy until they "
          "expired and wait in its timer queue, cancels them all while B arms as many of its own: cancelled timers never run, B's run on B), `crash` (once per case: a "
          "message whose handling panics with up to 40 notifies queued behind it - supervisor restart, the producer runs again inside the mailbox run - then posted "
-         "closures, timers and notifies for the new incarnation; kind `boom`). Every use the framework makes of a client connection object on the owner's behalf "
+         "closures, timers and notifies for the new incarnation; kind `boom`), `relay` (A issues 1-40 requests that an intermediary plain actor on proto.actor's default "
+         "dispatcher passes on to B - answered: `req` on B, `rsp` on A - or to a pid that does not exist, or that A sends to that pid itself: dead letter published on "
+         "the intermediary's goroutine, the completion callback runs after the 30 s timeout, kind `tmo`, on A's goroutine; optionally A stays inside the issuing piece meanwhile). Every use the framework makes of a client connection object on the owner's behalf "
          "(SetId in AddSession, GetId in the posted closures, Close of a kick) is recorded as kind `sio` (goroutines and overlap only, not the count)."
          " One evaluation = one burst: per service and entry kind "
          "(post, tmr, tz, lev, dlev, gev, req, mute, raw, ntf, slow, sib, rsp, tmo, sfl, sadd, smsg, srem, kick, sio, wstep, wfin, boom) the number of entries, the set of goroutines (canonical numbering) and "
